@@ -419,7 +419,11 @@ class Effects:
                     self.res.ambient.append((name + '()', e.lineno, self.cur.ref))
                     return Val({FRESH}, {'global-rng'})
                 return Val({FRESH}, allv.deps)
-            if name in ('hash', 'id', 'time.time', 'datetime.datetime.now', 'os.getpid'):
+            if name in ('hash', 'id'):
+                # deterministic within a process, used for cache keys; not a source of hidden state (a result that depended on hash ORDER would need a set /
+                # dict iteration, which the C02 taint scan covers)
+                return Val({FRESH}, allv.deps)
+            if name in ('time.time', 'datetime.datetime.now', 'os.getpid'):
                 self.res.ambient.append((name, e.lineno, self.cur.ref))
                 return Val({FRESH}, allv.deps | {'ambient:' + name})
             if name in PURE_FRESH or name.startswith('np.') and name not in MAY_ALIAS:
